@@ -11,7 +11,7 @@ LEVEL_NOTE = ("Coq theorem C13_holds (every M >= 2, every healthy store, every s
               "the on-disk state against the model, and that a fresh run succeeds.")
 TRUSTED = ["Coq 8.16.1 kernel; no axioms", "POSIX rename is atomic; a killed process's partial writes to a new file are invisible to readers of other files",
            "hooks: verif::point call sites (guarded) and the harness's SIGKILL timing", "modelled, not verified: the Rust source"]
-RULE = ("M in {2,3}; 1..M+1 completed runs, a checkpoint, then one run killed at each guarded point (slot set-up, before/after the result file, inside the pointer save, "
+RULE = ("M in {2,3} with 1..M+1 completed runs, and M in {10,11} (thorough: 10,11,12,20) with exactly M completed runs so that the crash hits the wrap-around from slot M to slot 1; a checkpoint, then one run killed at each guarded point (slot set-up, before/after the result file, inside the pointer save, "
         "during execution between compressor shutdown messages) or by SIGKILL after a random delay while children sleep; non-trivial = a completed run existed before the crash; "
         "distinct by (M, history length, crash point)")
 
@@ -116,6 +116,9 @@ def run(ctx, scale):
             M = rng.choice([2, 3])
             n_done = rng.choice([0, 1, 2, M, M + 1]) if not ctx.quick() else rng.choice([1, 2, M + 1])
             scenario(ctx, random.Random(rng.getrandbits(32)), M, n_done, crash)
+    # two-digit slot numbers (the default max_retained_runs is 10): the crash comes exactly where the slot number wraps from M to 1
+    for M, crash in ([(10, "run_after_slot_setup"), (11, "sigkill")] if ctx.quick() else [(10, "run_after_slot_setup"), (10, "sigkill"), (11, "run_after_slot_setup"), (12, "run_before_store_result"), (20, "run_after_slot_setup")]) * scale:
+        scenario(ctx, random.Random(rng.getrandbits(32)), M, M, crash)
     # one history with no completed run at all
     scenario(ctx, random.Random(rng.getrandbits(32)), 2, 0, "run_save_after_truncate")
     scenario(ctx, random.Random(rng.getrandbits(32)), 2, 0, "run_after_slot_setup")
